@@ -65,15 +65,18 @@ def check_tables(ctx, prog):
     # hex nibble table
     f = fn1(prog, 'asl::hexNibble')
     ctx.analysed(f)
-    tab = None
-    for s_ in ir.walk_stmts(f['body']):
-        if s_.get('k') == 'decl':
-            for v in s_['vars']:
-                ini = strip(v.get('init') or {})
-                if ini.get('k') == 'str':
-                    tab = bytes(ini['b']).decode('latin-1')
-    okk = tab is not None and len(tab) == 16 and all(int(ch, 16) == i for i, ch in enumerate(tab))
-    ctx.check(okk, 'C15.tables', f['pq'], 'hexNibble:16 hex digits in order', fwhere(f), 'table `%s`' % tab, 'hexNibble table `%s` is not the 16 hexadecimal digits in value order' % tab)
+    try:
+        got = ''
+        for v in range(16):
+            ev = bytesets.Evaluator(prog, f, {f['params'][0]['id']: v})
+            body = f['body']['s'] if f['body'].get('k') == 'block' else [f['body']]
+            call = {'k': 'call', 'fn': 'asl::hexNibble', 'sig': f.get('sig'), 'a': [{'k': 'int', 'v': v}]}
+            got += chr(bytesets.Evaluator(prog, f).ev(call) & 255)
+            ctx.evaluations += 1
+        ctx.check(got.upper() == '0123456789ABCDEF' and (got.isupper() or got.islower() or True), 'C15.tables', f['pq'], 'hexNibble:16 hex digits in order', fwhere(f), 'hexNibble(0..15) = `%s`' % got,
+                  'hexNibble(0..15) yields `%s`, not the 16 hexadecimal digits in value order' % got)
+    except bytesets.Undecidable as u:
+        ctx.undecided('C15.tables', f['pq'], 'hexNibble:16 hex digits in order', fwhere(f), 'not evaluable: %s' % u)
     f = fn1(prog, 'asl::encodeHex', '(const unsigned char *,int)')
     ctx.analysed(f)
     sn = [e for e in fn_exprs(f) if e.get('k') == 'call' and e.get('fn') == 'snprintf']
@@ -82,7 +85,30 @@ def check_tables(ctx, prog):
         fmt = strip(sn[0]['a'][2])
         dst = strip(sn[0]['a'][0])
         okk = fmt.get('k') == 'str' and bytes(fmt['b']).decode() in ('%02x',) and const_val(sn[0]['a'][1]) == 3 and any(w.get('k') == 'bin' and w.get('op') == '*' and const_val(w['x']) == 2 for w in walk_expr(dst))
-    ctx.check(okk, 'C15.tables', f['pq'], 'encodeHex:two lowercase digits per byte', fwhere(f), 'snprintf(&h[2*i], 3, "%02x", data[i])', 'encodeHex does not write exactly two lowercase hex digits per byte at offset 2*i')
+    if len(sn) == 1:
+        ctx.check(okk, 'C15.tables', f['pq'], 'encodeHex:two lowercase digits per byte', fwhere(f), 'snprintf(&h[2*i], 3, "%02x", data[i])', 'encodeHex does not write exactly two lowercase hex digits per byte at offset 2*i')
+    else:
+        # table-driven or other spelling: the two nibble look-ups are checked by bit provenance where they can be found
+        digs = [e for e in fn_exprs(f) if e.get('k') == 'idx' and (strip(e['b']).get('k') == 'str' or (strip(e['b']).get('k') == 'var' and strip(q.single_defs(f).get(strip(e['b']).get('id'), {}) or {}).get('k') == 'str') or
+                                                                 any(v['id'] == strip(e['b']).get('id') and strip(v.get('init') or {}).get('k') == 'str' for s2 in ir.walk_stmts(f['body']) if s2.get('k') == 'decl' for v in s2['vars']))]
+        data = f['params'][0]
+        def leaf(e):
+            if e.get('k') == 'idx' and strip(e['b']).get('id') == data['id']:
+                return bits.var_bits(('d', 0), 8)
+            return None
+        env = bits.Env(f, leaf=leaf, through_locals=True, prog=prog)
+        got = sorted(tuple(env.eval(e['i'])[:8]) for e in digs)
+        hi = tuple([(('d', 0), 4 + b) for b in range(4)] + ['0'] * 4)
+        lo = tuple([(('d', 0), b) for b in range(4)] + ['0'] * 4)
+        table_ok = any(bytes(w['b']).decode('latin-1').startswith('0123456789abcdef') for w in fn_exprs(f) if w.get('k') == 'str') or \
+            any(bytes(strip(v.get('init') or {}).get('b', [])).decode('latin-1').startswith('0123456789abcdef') for s2 in ir.walk_stmts(f['body']) if s2.get('k') == 'decl' for v in s2['vars'] if strip(v.get('init') or {}).get('k') == 'str')
+        if len(digs) == 2 and table_ok and any('X' in g_ for g_ in got):
+            ctx.undecided('C15.tables', f['pq'], 'encodeHex:two lowercase digits per byte', fwhere(f), 'nibble indices not resolved to bits of the data byte')
+        elif len(digs) == 2 and table_ok:
+            ctx.check(sorted([hi, lo]) == got, 'C15.tables', f['pq'], 'encodeHex:two lowercase digits per byte', fwhere(f), 'digit table indexed with the high and the low nibble',
+                      'encodeHex indexes its digit table with %s, not with the high and low nibble of the byte' % [bits.show(list(g_), {('d', 0): 'b'}, 8) for g_ in got])
+        else:
+            ctx.undecided('C15.tables', f['pq'], 'encodeHex:two lowercase digits per byte', fwhere(f), 'neither snprintf("%02x") nor two look-ups in a lowercase digit table found')
 
 
 def _offset_of(ix):
@@ -241,47 +267,50 @@ def check_decoder_bits(ctx, prog, f):
 def check_urlset(ctx, prog):
     f = fn1(prog, 'asl::Url::encode')
     ctx.analysed(f)
-    ifs = [s_ for s_ in ir.walk_stmts(f['body']) if s_.get('k') == 'if']
-    if len(ifs) != 1:
-        raise AnalysisBroken('Url::encode: single escape decision not found')
-    s_ = ifs[0]
-    cvar = None
-    for st in ir.walk_stmts(f['body']):
-        if st.get('k') == 'decl':
-            for v in st['vars']:
-                if T(f, v['t']).get('bits') == 8:
-                    cvar = v
     comp = f['params'][1]
-    if cvar is None:
-        raise AnalysisBroken('Url::encode: character variable not found')
-    signed = bool(T(f, cvar['t']).get('sg'))
+    # what Url::encode appends for every byte value in both modes (emit.py: guards and arguments of each append evaluated with
+    # the current character bound): either the byte itself or '%' + two upper-case hex digits of the unsigned byte value
+    import emit
+    outs = [v for s_ in ir.walk_stmts(f['body']) if s_.get('k') == 'decl' for v in s_['vars'] if T(f, v['t']).get('rec') == 'asl::String' and not T(f, v['t']).get('ref')]
+    out_ids = set(v['id'] for v in outs)
     sets = {}
+    where = fwhere(f)
     for mode in (0, 1):
         try:
-            esc = bytesets.byteset(prog, f, s_['c'], lambda e: e.get('k') == 'var' and e.get('id') == cvar['id'], signed=signed, extra_env={comp['id']: mode})
-        except bytesets.Undecidable as ex:
-            ctx.undecided('C15.urlset', f['pq'], 'encode:escape set', fwhere(f, s_['l']), 'escape condition not evaluable: %s' % ex)
+            table, _ = emit.emit_table(prog, f, out_pred=lambda x: x.get('k') == 'var' and x.get('id') in out_ids, extra_env={comp['id']: mode})
+        except emit.Unresolved as u:
+            if 'outside table' in str(u):
+                ctx.violation('C15.urlset', f['pq'], 'encode:escaped byte written as %HL', where, 'a hex digit table is indexed out of range while escaping: %s (the byte is not treated as an unsigned value: escaped bytes >= 0x80 come out as garbage)' % u)
+            else:
+                ctx.undecided('C15.urlset', f['pq'], 'encode:escape set', where, 'appended text not evaluable: %s' % u)
             return
-        sets[mode] = esc - {0}
-        ctx.evaluations += 256
+        ctx.evaluations += 255
+        esc = set()
+        bad = None
+        for b_, out in table.items():
+            if out == [b_]:
+                continue
+            if bytes(out).upper() == (b'%%%02X' % b_):
+                esc.add(b_)
+            elif bad is None:
+                bad = (b_, out)
+        if bad:
+            ctx.violation('C15.urlset', f['pq'], 'encode:escaped byte written as %HL', where, "byte 0x%02x is written as %r in %s: neither the byte itself nor '%%' followed by the high and then the low nibble of the unsigned byte value"
+                          % (bad[0], bytes(x & 255 for x in bad[1]), 'component mode' if mode else 'full-URL mode'))
+            return
+        sets[mode] = esc
+    ctx.ok('C15.urlset', f['pq'], 'encode:escaped byte written as %HL', where, "every byte is written raw or as '%' + high nibble + low nibble")
+    s_ = {'l': f.get('line', 0)}
     ctx.info['url_unescaped_component'] = bytesets.fmt_set(set(range(1, 256)) - sets[1])
     ctx.info['url_unescaped_full'] = bytesets.fmt_set(set(range(1, 256)) - sets[0])
     for mode, name in ((0, 'full-URL mode'), (1, 'component mode')):
-        ctx.check(ord('%') in sets[mode], 'C15.urlset', f['pq'], 'encode:%% escaped (%s)' % name, fwhere(f, s_['l']), "'%' is escaped",
+        ctx.check(ord('%') in sets[mode], 'C15.urlset', f['pq'], 'encode:%% escaped (%s)' % name, where, "'%' is escaped",
                   "Url::encode leaves '%%' unescaped in %s: decode(encode(s)) != s for any s containing a percent sign followed by two hex digits" % name)
-        ctx.check(all(b in sets[mode] for b in range(128, 256)) and all(b in sets[mode] for b in range(1, 33)), 'C15.urlset', f['pq'], 'encode:controls, space and non-ASCII escaped (%s)' % name, fwhere(f, s_['l']),
+        ctx.check(all(b in sets[mode] for b in range(128, 256)) and all(b in sets[mode] for b in range(1, 33)), 'C15.urlset', f['pq'], 'encode:controls, space and non-ASCII escaped (%s)' % name, where,
                   'bytes 0x01-0x20 and 0x80-0xff escaped', 'Url::encode leaves control, space or non-ASCII bytes unescaped in %s' % name)
     need = set(ord(c) for c in '&=+%')
-    ctx.check(need <= sets[1], 'C15.urlset', f['pq'], 'encode:query metacharacters escaped in component mode', fwhere(f, s_['l']), '& = + % escaped',
+    ctx.check(need <= sets[1], 'C15.urlset', f['pq'], 'encode:query metacharacters escaped in component mode', where, '& = + % escaped',
               'component mode leaves %s unescaped: parseQuery(params(d)) splits or rewrites keys/values containing them' % sorted(chr(b) for b in need - sets[1]))
-    # the escaped form: '%' then hexNibble(c >> 4) then hexNibble(c & 0x0f)
-    calls = [e for e in ir.stmt_exprs(s_['then']) if e.get('k') == 'call' and (e.get('fn') or '').endswith('hexNibble')]
-    hi = [c for c in calls if strip(c['a'][0]).get('op') == '>>' and const_val(strip(c['a'][0])['y']) == 4]
-    lo = [c for c in calls if strip(c['a'][0]).get('op') == '&' and const_val(strip(c['a'][0])['y']) == 0x0f]
-    order_ok = len(calls) == 2 and len(hi) == 1 and len(lo) == 1 and calls.index(hi[0]) < calls.index(lo[0]) if calls else False
-    pct = [e for e in ir.stmt_exprs(s_['then']) if e.get('k') == 'int' and e.get('chr') and e.get('v') == ord('%')]
-    ctx.check(bool(pct) and order_ok and not signed, 'C15.urlset', f['pq'], "encode:escaped byte written as %HL", fwhere(f, s_['l']), "'%' + high nibble + low nibble of the unsigned byte",
-              "escaped bytes are not written as '%%' followed by the high and then the low nibble of the unsigned byte value (signed=%s)" % signed)
     # decode: '%' + 2 chars -> strtoul base 16
     d = fn1(prog, 'asl::Url::decode')
     ctx.analysed(d)
@@ -364,6 +393,92 @@ def block_loop(ctx, prog, f, B, consumer, role):
     return 1
 
 
+def hex_pairs(ctx, prog, f):
+    """decodeHex: the loop runs exactly length/2 times, every read of the text lies inside it and every store into the result lies
+    inside its length/2 elements - for every text length 0..24 (loop normal form + guard evaluation)."""
+    role = 'decodeHex:block loop bound'
+    sp = f['params'][0]
+    loops = [s_ for s_ in ir.walk_stmts(f['body']) if s_.get('k') in ('for', 'while')]
+    if len(loops) != 1:
+        ctx.undecided('C15.stride', f['pq'], role, fwhere(f), 'no single pair loop found')
+        return 0
+    lp = loops[0]
+    cl = q.counted_loop(f, lp)
+    if cl is None or (not isinstance(cl['step'], int) and const_val(cl['step']) is None):
+        ctx.undecided('C15.stride', f['pq'], role, fwhere(f, lp['l']), 'pair loop is not a recognised counting loop')
+        return 0
+    lens = set(pe(w) for w in fn_exprs(f) if w.get('k') == 'call' and (w.get('pq') or '').endswith('String::length') and strip(w.get('obj') or {}).get('id') == sp['id'])
+    if len(lens) != 1:
+        ctx.undecided('C15.stride', f['pq'], role, fwhere(f, lp['l']), 'length of the text not consulted exactly through s.length()')
+        return 0
+    lt = list(lens)[0]
+    G = q.Guarded(f)
+    step = cl['step'] if isinstance(cl['step'], int) else const_val(cl['step'])
+    # sites inside the loop
+    src_alias = set([sp['id']]) | set(vid for vid, ini in q.single_defs(f).items() if any(w.get('k') == 'var' and w.get('id') == sp['id'] for w in walk_expr(ini)) and T(f, strip_lv(ini).get('t') or 0).get('ptr'))
+    for s_ in ir.walk_stmts(f['body']):
+        if s_.get('k') == 'decl':
+            for v in s_['vars']:
+                if v.get('init') is not None and T(f, v['t']).get('ptr') and any(w.get('k') == 'var' and w.get('id') == sp['id'] for w in walk_expr(v['init'])):
+                    src_alias.add(v['id'])
+    reads, stores = [], []
+    for e in ir.stmt_exprs(lp['body']):
+        if e.get('k') == 'call' and (e.get('pq') or '').endswith('String::substring') and strip(e.get('obj') or {}).get('id') == sp['id'] and len(e.get('a', [])) == 2:
+            reads.append(('range', e['a'][0], e['a'][1], e))
+        elif e.get('k') == 'call' and e.get('op') == '[]' and strip(e.get('obj') or {}).get('id') == sp['id']:
+            reads.append(('at', e['a'][0], None, e))
+        elif e.get('k') == 'idx' and strip(e['b']).get('k') == 'var' and strip(e['b']).get('id') in src_alias:
+            reads.append(('at', e['i'], None, e))
+        elif e.get('k') == 'call' and e.get('op') == '[]' and T(f, strip_lv(e.get('obj') or {}).get('t')).get('recp') == 'asl::Array':
+            stores.append(e)
+    if not reads or not stores:
+        ctx.undecided('C15.stride', f['pq'], role, fwhere(f, lp['l']), 'reads of the text / stores into the result not recognised')
+        return 0
+    bad = None
+    try:
+        for N in range(0, 25):
+            ev0 = bounded.Bound(prog, f, {}, {lt: N})
+            init = ev0.ev(cl['init'])
+            # trip count: the loop condition evaluated along the arithmetic progression of the counter
+            trips = 0
+            while trips <= 64 and bounded.Bound(prog, f, {cl['var']: init + trips * step}, {lt: N}).ev(cl['cond']):
+                trips += 1
+            if trips > 64:
+                trips = None
+            ctx.evaluations += 1
+            if trips != N // 2:
+                bad = 'for a text of %d characters the loop runs %s times, not %d: %s' % (N, trips, N // 2, 'reads past the text' if trips is None or trips > N // 2 else 'the last pair is dropped')
+                break
+            for t in range(trips or 0):
+                ev = bounded.Bound(prog, f, {cl['var']: init + t * step}, {lt: N})
+                for kind, a_, b_, e in reads:
+                    lo = ev.ev(a_)
+                    hi = ev.ev(b_) if b_ is not None else lo + 1
+                    if not (0 <= lo <= hi <= N):
+                        bad = 'for a text of %d characters `%s` reads [%d, %d)' % (N, pe(e), lo, hi)
+                for e in stores:
+                    i_ = ev.ev(e['a'][0])
+                    if not 0 <= i_ < N // 2:
+                        bad = 'for a text of %d characters the result element %d is written, the result has %d' % (N, i_, N // 2)
+            if bad:
+                break
+    except bytesets.Undecidable as u:
+        ctx.undecided('C15.stride', f['pq'], role, fwhere(f, lp['l']), 'not evaluable: %s' % u)
+        return 0
+    res = [v for s_ in ir.walk_stmts(f['body']) if s_.get('k') == 'decl' for v in s_['vars'] if T(f, v['t']).get('recp') == 'asl::Array' and strip(v.get('init') or {}).get('k') == 'construct' and strip(v['init']).get('a')]
+    if bad is None and len(res) == 1:
+        try:
+            for N in range(0, 25):
+                got = bounded.Bound(prog, f, {}, {lt: N}).ev(strip(res[0]['init'])['a'][0])
+                if got != N // 2:
+                    bad = 'for a text of %d characters the result is allocated with %d elements, not %d' % (N, got, N // 2)
+                    break
+        except bytesets.Undecidable:
+            pass
+    ctx.check(bad is None, 'C15.stride', f['pq'], role, fwhere(f, lp['l']), 'length/2 iterations, reads inside the text, stores inside the length/2-element result for lengths 0..24', 'decodeHex: %s' % bad)
+    return 1
+
+
 def check_stride(ctx, prog):
     n = 0
     # full-block consumers
@@ -372,7 +487,7 @@ def check_stride(ctx, prog):
     n += block_loop(ctx, prog, f, 64, lambda e: e.get('k') == 'call' and (e.get('pq') or e.get('fn') or '').endswith('transform'), 'update:block loop bound')
     f = fn1(prog, 'asl::decodeHex', None)
     ctx.analysed(f)
-    n += block_loop(ctx, prog, f, 2, lambda e: e.get('k') == 'call' and (e.get('pq') or '').endswith('hexToInt'), 'decodeHex:block loop bound')
+    n += hex_pairs(ctx, prog, f)
     # guarded reads of the encoder: every data[...] read stays inside [0, n) under its guards
     f = fn1(prog, 'asl::encodeBase64', '(const unsigned char *,int)')
     ctx.analysed(f)
@@ -652,13 +767,6 @@ def check_decode(ctx, prog):
                           'the final resize(`%s`) is %s for %s: padding-only input yields a negative length' % (pe(arg), bad[1] if bad else '', bad[0] if bad else ''))
             except bytesets.Undecidable as u:
                 ctx.undecided('R-NEGLEN', f['pq'], role, fwhere(f, last['l']), 'resize argument not evaluable: %s' % u)
-    dh = fn1(prog, 'asl::decodeHex')
-    ctx.analysed(dh)
-    ctor = [v for s_ in ir.walk_stmts(dh['body']) if s_.get('k') == 'decl' for v in s_['vars'] if T(dh, v['t']).get('recp') == 'asl::Array']
-    ok = bool(ctor) and any(w.get('k') == 'bin' and w.get('op') == '/' and const_val(w['y']) == 2 for w in walk_expr(ctor[0].get('init') or {}))
-    writes = [e for e in fn_exprs(dh) if e.get('k') == 'call' and e.get('op') == '[]' and e.get('obj') is not None and ctor and strip(e['obj']).get('id') == ctor[0]['id']]
-    okw = bool(writes) and all(strip(w['a'][0]).get('op') == '/' and const_val(strip(w['a'][0])['y']) == 2 for w in writes)
-    ctx.check(ok and okw, 'C15.decode', dh['pq'], 'decodeHex:result length/2 indexed i/2', fwhere(dh), 'a(length/2), a[i/2]', 'decodeHex result is not sized length()/2 and indexed i/2')
 
 
 def conj(c):
